@@ -17,10 +17,32 @@ type c16Case struct {
 	Page2 uint8  `json:"page2,omitempty"`
 	At    int    `json:"at,omitempty"`    // restart / rewrite happens after this many cycles
 	Index int    `json:"index,omitempty"` // rewrite: byte index
+	// Cart: 0 = MBC1+RAM (default); 1 = MBC3+TIMER+RAM with the clock running; 2 = the same with the clock halted;
+	// 3 = MBC5+RAM; 4 = ROM only. The transfer is the console's business: the cartridge must not matter.
+	Cart int `json:"cart,omitempty"`
 }
 
-func c16Machine(ramEn bool) *machine.M {
-	m := machine.New(machine.Image(0x03, 1, 2, 4), machine.Opts{})
+func c16Machine(ramEn bool, cart ...int) *machine.M {
+	img := machine.Image(0x03, 1, 2, 4)
+	k := 0
+	if len(cart) > 0 {
+		k = cart[0]
+	}
+	switch k {
+	case 1, 2:
+		img = machine.Image(0x10, 1, 2, 4)
+	case 3:
+		img = machine.Image(0x1b, 1, 2, 4)
+	case 4:
+		img = machine.Image(0x00, 0, 0, 2)
+	}
+	m := machine.New(img, machine.Opts{})
+	if k == 2 {
+		m.Map.Write(0x0000, 0x0a)
+		m.Map.Write(0x4000, 0x0c)
+		m.Map.Write(0xa000, 0x40) // halt the cartridge clock
+		m.Map.Write(0x4000, 0x00)
+	}
 	for m.Map.Read(0xff41)&3 == 2 {
 		m.Hardware()
 	}
@@ -47,7 +69,7 @@ func c16Source(m *machine.M, page uint8) [160]uint8 {
 }
 
 func c16Check(l *explore.Local, _ struct{}, c c16Case) *explore.Fail {
-	m := c16Machine(c.RAMEn)
+	m := c16Machine(c.RAMEn, c.Cart)
 	if c.Kind == "lcdon" {
 		// the display is running: the transfer starts c.At cycles after the LCD was switched on (every phase
 		// of visible and v-blank lines); only the hardware is stepped, so no CPU access can arm the OAM bug
@@ -155,11 +177,22 @@ func init() {
 			c.R.Assumptions = []string{"completion is observed through FEA0 (00 when OAM is accessible, FF during a transfer)", "ROM-only cartridges are not used here (their A0-BF sources belong to C09/C11)"}
 		}
 		pages := []uint8{0x00, 0x80, 0xc0, 0xdf, 0xe0, 0xf1}
-		explore.Product(c.R, "dma", explore.PartOpt{Bound: "every cycle of every transfer observed", Domain: "pages 00-F1; restarts at every cycle; rewrites at every cycle; LCD on, transfer started at every cycle of lines 0, 1, 70, 143, 144, 153"},
+		explore.Product(c.R, "dma", explore.PartOpt{Bound: "every cycle of every transfer observed", Domain: "pages 00-F1 on an MBC1 cartridge, 8 pages on MBC3 (clock running / halted), MBC5 and ROM-only cartridges; restarts at every cycle; rewrites at every cycle; LCD on, transfer started at every cycle of lines 0, 1, 70, 143, 144, 153"},
 			func(yield func(c16Case) bool) {
 				for p := 0; p <= 0xf1; p++ {
 					for _, en := range []bool{true, false} {
 						if !yield(c16Case{Kind: "basic", Page: uint8(p), RAMEn: en}) {
+							return
+						}
+					}
+				}
+				// other cartridges (the clock of an MBC3 running and halted, MBC5, ROM only)
+				for cart := 1; cart <= 4; cart++ {
+					for _, p := range []uint8{0x00, 0x40, 0x80, 0xa0, 0xc0, 0xdf, 0xe0, 0xf1} {
+						if cart == 4 && p == 0xa0 {
+							continue
+						}
+						if !yield(c16Case{Kind: "basic", Page: p, RAMEn: true, Cart: cart}) {
 							return
 						}
 					}
